@@ -27,6 +27,7 @@ fn main() {
         "files" => files::run(&cli),
         "crash" => crash::run(&cli),
         "wire" => wire::run(&cli),
+        "fprobe" => folder::probe(&cli),
         "sched" => sync::run_sched(&cli),
         d => {
             eprintln!("unknown domain {d}");
